@@ -212,7 +212,17 @@ def check(ctx):
         r2.ok("parameter objects: ⟦command.tsTypeName⟧Params in both modes (+ParamsSchema)")
     else:
         r2.bad(V(r2.id, "zod/partials/param_schemas.ts.tera", "param-names:%s" % sorted(pb), "parameter object names differ: plain %s, zod %s" % (sorted(pa), sorted(pb))))
-    r2.require_floor(5, "name/key comparisons")
+    # the two modes declare the same set of names: both generate_models close the declared set the same way (rule shared with C07-D3)
+    from c07 import check_closure_before_insert
+    sub = Rule(r2.id, "D2", "", "")
+    check_closure_before_insert(ctx.P, sub)
+    r2.instances += sub.instances
+    r2.discharged += sub.discharged
+    for v in sub.violations:
+        v.rule = r2.id
+        v.msg = "the declared set of this mode differs from the other mode's: " + v.msg
+        r2.violations.append(v)
+    r2.require_floor(7, "name/key comparisons and declared-set facts")
     rules.append(r2)
     rules.append(r3)
 
